@@ -49,6 +49,19 @@ theorem inv_setSpImage (W : World) (s : St) (k : Option Nat) (h : Inv W s) : Inv
     obtain ⟨h1, h2, h3, h4, h5, h6, h7, h8, h9, h10, h11⟩ := h
     constructor <;> (simp only [setSpImage, sampleScatterPoints] at *) <;> (first | assumption | grind)
 
+/-- the setters do not look at the pointer / the values they already hold: an in-place change followed by the setter with
+    the same pointer is the setter with a new image -/
+theorem setActivityInPlace_eq (a : Nat) (s : St) : setActivityInPlace a s = setActivity (some a) s := rfl
+
+theorem setDensityInPlace_eq (m : Nat) (s : St) : setDensityInPlace m s = setDensity (some m) s := rfl
+
+theorem setSpImageInPlace_eq (i : Nat) (s : St) : setSpImageInPlace i s = setSpImage (some i) s := rfl
+
+theorem step_inPlace_eq (W : World) (s : St) (k : Nat) :
+    step W s (.setActivityInPlace k) = step W s (.setActivity (some k)) ∧
+    step W s (.setDensityInPlace k) = step W s (.setDensity (some k)) ∧
+    step W s (.setSpImageInPlace k) = step W s (.setSpImage (some k)) := ⟨rfl, rfl, rfl⟩
+
 theorem inv_setExam (W : World) (s : St) (e : Nat) (h : Inv W s) (g : opOk s (.setExam e) = true) : Inv W (setExam e s) := by
   obtain ⟨h1, h2, h3, h4, h5, h6, h7, h8, h9, h10, h11⟩ := h
   simp only [opOk, Bool.or_eq_true, Option.isNone_iff_eq_none, beq_iff_eq] at g
@@ -113,9 +126,7 @@ theorem inv_downsampleScanner (W : World) (s : St) (r d : Int) (h : Inv W s) : I
     split <;> exact h
   | some t =>
     simp only
-    have := inv_setTemplate W s (downsampledTmpl t
-      (if r ≤ 0 then if s.dsRings > 1 then s.dsRings.toNat else W.defaultDsRings t else r.toNat)
-      (if d ≤ 0 then if s.dsDets > 0 then s.dsDets.toNat else 64 else d.toNat)) h
+    have := inv_setTemplate W s (downsampledTmpl t (dsRingsUsed W s t r) (dsDetsUsed W s t d)) h
     simpa [setTemplate, setTemplateVal] using this
 
 theorem inv_downsampleSp (W : World) (s : St) (h : Inv W s) : Inv W (downsampleSp s).1 := by
@@ -441,6 +452,9 @@ theorem inv_step (W : World) (s : St) (op : Op) (h : Inv W s) (g : opOk s op = t
   | setActivity k => exact inv_setActivity W s k h
   | setDensity k => exact inv_setDensity W s k h
   | setSpImage k => exact inv_setSpImage W s k h
+  | setActivityInPlace a => exact inv_setActivity W s (some a) h
+  | setDensityInPlace m => exact inv_setDensity W s (some m) h
+  | setSpImageInPlace i => exact inv_setSpImage W s (some i) h
   | setExam e => exact inv_setExam W s e h g
   | setZoom z => exact inv_setZoom W s z h g
   | setThr t => exact inv_setThr W s t h g
